@@ -75,6 +75,9 @@ pub enum Verdict {
     /// `class` is a decidable predicate *on the input* (used to match KNOWN_FINDINGS), `detail`
     /// is free text.
     Fail { class: String, detail: String },
+    /// the oracle has no complaint, but the case belongs to a history in which the trigger of the
+    /// known finding `class` has fired (model and implementation may then legitimately differ)
+    Taint { class: String },
 }
 
 pub struct Recorder {
@@ -135,6 +138,7 @@ impl Recorder {
             Verdict::Fail { class, detail } => {
                 writeln!(self.oracle, "FAIL {} {}", class.replace(' ', "_"), detail.replace('\n', " ")).unwrap()
             }
+            Verdict::Taint { class } => writeln!(self.oracle, "TAINT {}", class.replace(' ', "_")).unwrap(),
         }
         if let Some(fp) = nontrivial {
             self.nontrivial.insert(fp);
